@@ -59,3 +59,19 @@ func starveFor(prop, tier string, sc *Scn) int {
 	}
 	return 0
 }
+
+// runNextFor tells whether a scenario is also explored around the "readied goroutine runs next"
+// base schedule (verifrt.Options.RunNext), at its own deviation bound: in the quick tier the
+// deviation-free scenarios, in the thorough tier those with at most one deviation.
+func runNextFor(prop, tier string, sc *Scn) bool {
+	if sc.Opts.Unbounded || prop == "RT" {
+		return false
+	}
+	if strings.HasPrefix(sc.Name, "C09/tracer") || strings.HasPrefix(sc.Name, "C09/relay") || strings.HasPrefix(sc.Name, "C20/fallback") || strings.HasPrefix(sc.Name, "C20/sno") {
+		return false // micro-harnesses already explored without a bound or at d <= 3
+	}
+	if tier == "thorough" {
+		return sc.Opts.Bound <= 1
+	}
+	return sc.Opts.Bound == 0
+}
